@@ -594,7 +594,89 @@ def oracle_summary(rec, tree):
 
 
 
-ORACLES = [("basic", oracle_basic), ("libtest", oracle_libtest), ("json", oracle_json), ("junit", oracle_junit),
+def render_terminal(text):
+    """What a terminal shows after `text`: newline, carriage return, cursor up / down, erase line; colours ignored."""
+    screen = [[]]
+    row = col = 0
+    i, n = 0, len(text)
+    while i < n:
+        c = text[i]
+        i += 1
+        if c == "\n":
+            row += 1
+            col = 0
+        elif c == "\r":
+            col = 0
+        elif c == "\x1b":
+            if i >= n or text[i] != "[":
+                raise ValueError("escape sequence other than CSI")
+            i += 1
+            params = ""
+            while i < n and (text[i].isdigit() or text[i] == ";"):
+                params += text[i]
+                i += 1
+            if i >= n:
+                raise ValueError("unterminated CSI")
+            fin = text[i]
+            i += 1
+            k = int(params) if params.isdigit() else 1
+            if fin == "A":
+                row = max(0, row - k)
+            elif fin == "B":
+                row += k
+            elif fin == "K":
+                if params != "2":
+                    raise ValueError("erase-in-line mode " + params)
+                screen[row] = []
+            elif fin == "m":
+                pass
+            else:
+                raise ValueError("unexpected CSI final " + repr(fin))
+        else:
+            line = screen[row]
+            while len(line) < col:
+                line.append(" ")
+            if col < len(line):
+                line[col] = c
+            else:
+                line.append(c)
+            col += 1
+        while len(screen) <= row:
+            screen.append([])
+    return ["".join(l) for l in screen]
+
+
+def _trimmed(lines):
+    lines = [l.rstrip() for l in lines]
+    while lines and not lines[-1]:
+        lines.pop()
+    return lines
+
+
+def oracle_colored(rec, tree):
+    """With colouring on the reporter prints a transient line per started step and erases it when the
+    result is known: what is left on the screen must be the plain report of the same stream."""
+    col = rec.get("colored")
+    if col is None:
+        return []
+    text = col.get("ok")
+    if text is None:
+        return [("basic:colored-panicked", col.get("panic", ""))]
+    plain = rec["basic"].get("ok")
+    if plain is None:
+        return []
+    try:
+        screen = _trimmed(render_terminal(text))
+    except ValueError as e:
+        return [("basic:colored-malformed", str(e))]
+    want = _trimmed(plain.split("\n"))
+    if screen != want:
+        k = next((i for i, (a, b) in enumerate(zip(screen, want)) if a != b), min(len(screen), len(want)))
+        return [("basic:colored-screen-differs", f"line {k + 1}: the screen shows {screen[k] if k < len(screen) else None!r}, the plain report has {want[k] if k < len(want) else None!r} ({len(screen)} vs {len(want)} lines)")]
+    return []
+
+
+ORACLES = [("basic", oracle_basic), ("colored", oracle_colored), ("libtest", oracle_libtest), ("json", oracle_json), ("junit", oracle_junit),
            ("summarized", oracle_summary)]
 
 
@@ -629,6 +711,10 @@ def run(workdirs):
                     sh = shape(rec, tree, name)
                     if sh is not None:
                         distinct.add(sh)
+                    if name == "colored":
+                        n_erased = (rec.get("colored", {}).get("ok") or "").count("\x1b[2K")
+                        counters["c14.colored_screens_rendered"] = counters.get("c14.colored_screens_rendered", 0) + 1
+                        counters["c14.transient_lines_erased_on_those_screens"] = counters.get("c14.transient_lines_erased_on_those_screens", 0) + n_erased
                     if name == "summarized":
                         try:
                             blk = parse_summary_block(rec["summarized"].get("ok") or "")
